@@ -1,5 +1,7 @@
 import IbicusModel.Props.C08
 import IbicusModel.Lemmas.GenWindows
+import IbicusModel.Props.Calendar
+import IbicusModel.Props.CalendarAgree
 -- property theorems
 #print axioms Props.C08.window_mem_iff_circ
 #print axioms Props.C08.adjust_close
@@ -14,3 +16,15 @@ import IbicusModel.Lemmas.GenWindows
 #print axioms Lemmas.GenWindows.get_window_centers
 #print axioms Lemmas.GenWindows.get_indices_vals_in_window
 #print axioms Lemmas.GenWindows.get_indices_vals_to_adjust
+-- calendar model (tied by the DrvCalendar correspondence): day of year in range, successor day, every day of year present
+-- in a whole year, injectivity, the inferred calendar, the seasons
+#print axioms Props.Calendar.dayOfYear_range
+#print axioms Props.Calendar.valid_next
+#print axioms Props.Calendar.dayOfYear_next
+#print axioms Props.Calendar.dayOfYear_surjective
+#print axioms Props.Calendar.dayOfYear_injective
+#print axioms Props.Calendar.run_valid
+#print axioms Props.Calendar.inferred_valid
+#print axioms Props.Calendar.season_partition
+-- the two models of the inferred calendar (successor-day iteration / year arithmetic) agree on year and day of year
+#print axioms Props.CalendarAgree.inferred_agree
